@@ -8,7 +8,7 @@ it when the call happens, whether someone re-seeded in between.  DESIGN section 
 import json
 import math
 
-from .common import BaseHooks, V, finite, is_qmat, np, qalg, ref_request, round_sig, sub_rng
+from .common import rand_clock, BaseHooks, V, finite, is_qmat, np, qalg, ref_request, round_sig, sub_rng
 
 PROP = "C12"
 CLOCKS = [[0.0], [1e-3, -3600.0, 1e6], [1e6], [-1.0], [5e-4, 0.0, 0.0, 7200.0], [1e-9]]
@@ -104,7 +104,7 @@ def gen_trace(seed, world, tier):
             steps.append({"k": "rng", "op": "seed", "v": R_.randrange(10 ** 6), "client": 1})
     call = {"k": "fn", "fn": fn, "args": [A, Rk], "kwargs": kw, "client": 2, "tags": tags}
     if R_.random() < 0.1:
-        call["clock"] = R_.choice(CLOCKS)   # stalled / jumping / coarse clock: must not matter
+        call["clock"] = rand_clock(R_)   # stalled / jumping / coarse clock: must not matter
     steps.append(call)
     x2 = R_.random()
     if x2 < 0.25:
@@ -123,6 +123,11 @@ def gen_trace(seed, world, tier):
         steps.append(call2)
     if R_.random() < 0.3:
         steps.append({"k": "repeat", "of": len(steps) - 1, "client": 0})
+    elif R_.random() < 0.1:
+        # fault: the k-th LAPACK-backed factorisation the routine performs fails (LinAlgError, what
+        # gesdd reports when it does not converge).  Failing loudly is fine; answering is only fine
+        # if the answer still has every property.
+        steps.append(dict(call, fault={"linalg_fail": {"fn": R_.choice(["svd", "svd", "qr"]), "k": R_.choice([1, 1, 2, 3])}}))
     return {"prop": PROP, "seed": seed, "world": world, "mode": "run", "steps": steps}
 
 
@@ -153,7 +158,9 @@ class Hooks(BaseHooks):
             return
         if k != "fn":
             return
-        self.need.append(i)
+        faulted = bool((step.get("fault") or {}).get("linalg_fail"))
+        if not faulted:
+            self.need.append(i)
         t = step["tags"]
         self.cnt["calls"] += 1
         reg = "regime_" + ("+".join(k for k in ("rank_lt_R", "wide_sketch", "repeated_sv") if t.get(k)) or "regular")
@@ -161,6 +168,11 @@ class Hooks(BaseHooks):
         if rec["args_changed"]:
             viol.append(V("args_mutated", i, f"{step['fn']} changed its argument in place"))
         m, n, Rk = t["m"], t["n"], t["R"]
+        if rec["ok"] == "exc" and faulted:
+            self.cnt["raised_under_fault"] = self.cnt.get("raised_under_fault", 0) + 1
+            return      # a loud failure under an injected LAPACK failure is allowed
+        if faulted:
+            self.cnt["returned_under_fault"] = self.cnt.get("returned_under_fault", 0) + 1
         if rec["ok"] == "exc":
             viol.append(V("raised", i, f"{step['fn']}({m}x{n}, R={Rk}, {step['kwargs']}) raised "
                                        f"{rec.get('exc')}: {rec.get('exc_msg')}"))
